@@ -6,6 +6,7 @@ law is proved both for the minimal backend's extended-coordinate formulas and fo
 the arkworks backend is modelled.  The statements below put two different routines / two different sets of formulas
 side by side: same decoding verdict, same encoding bytes, same element from every program and every ladder.
 -/
+import Decaf.BuildsCmd
 import Decaf.Props.C01
 import Decaf.Props.C05
 
@@ -58,3 +59,10 @@ theorem constants_agree : ZETA_min = ZETA ∧ fqLit Gen.min_curve_constants.top.
     fqLit Gen.min_curve_constants.top.COEFF_D = cD ∧ cK = fmul q 2 cD := by decide +kernel
 
 end C12
+
+/-! ### the statements for the two shipped routines (`C09.ark_contract`, `C09.min_contract` discharge the premise) -/
+instantiate_builds C12.decode_verdict_agrees
+instantiate_builds C12.decode_result_agrees
+instantiate_builds C12.decode_error_agrees
+instantiate_builds C12.encode_agrees
+instantiate_builds C12.program_encoding_agrees
